@@ -15,7 +15,7 @@ fi
 if ! git -C "$REPO" diff --quiet; then echo "$REPO has uncommitted changes; refusing" >&2; exit 2; fi
 restore() { git -C "$REPO" checkout -- . ; }
 trap restore EXIT
-for d in seeded/* seeded_informed/* seeded_wave3/* seeded_wave4/* seeded_informed2/* seeded_informed3/* seeded_informed4/*; do
+for d in seeded/* seeded_informed/* seeded_wave3/* seeded_wave4/* seeded_informed2/* seeded_informed3/* seeded_informed4/* seeded_informed5/*; do
   [ -f "$d/patch.diff" ] || continue
   name=$(basename "$d"); id=$(echo "$name" | grep -oE "C[0-9]{2}" | head -1)
   git -C "$REPO" apply "$ROOT/$d/patch.diff" || { echo "$name: PATCH-DOES-NOT-APPLY"; continue; }
